@@ -78,6 +78,7 @@ func (c *Ctx) ruleDynOneof(rule string) {
 	}
 	if fi := c.need(rule, "types/dynamicpb.(*Message).clearOtherOneofFields"); fi != nil {
 		info := fi.Info()
+		defs := localDefs(fi.Decl.Body, info)
 		ok := false
 		walk(fi.Decl.Body, func(node ast.Node) bool {
 			fs, isFor := node.(*ast.ForStmt)
@@ -93,14 +94,32 @@ func (c *Ctx) ruleDynOneof(rule string) {
 				if !isBE || be.Op != token.NEQ {
 					return true
 				}
-				if containsCall(info, is.Body, "builtin.delete") != nil {
+				// both sides are field numbers (FieldDescriptor.Number()), directly or through a local
+				isNumber := func(e ast.Expr) bool {
+					e = unparen(e)
+					if call, ok := e.(*ast.CallExpr); ok {
+						return calleeKey(info, call) == "reflect/protoreflect.FieldDescriptor.Number"
+					}
+					if id, ok := e.(*ast.Ident); ok {
+						for _, d := range defs[info.Uses[id]] {
+							if call, ok := unparen(d.rhs).(*ast.CallExpr); ok && calleeKey(info, call) == "reflect/protoreflect.FieldDescriptor.Number" {
+								return true
+							}
+						}
+					}
+					return false
+				}
+				if !isNumber(be.X) || !isNumber(be.Y) {
+					return true
+				}
+				if del := containsCall(info, is.Body, "builtin.delete"); del != nil && len(del.Args) == 2 && isNumber(del.Args[1]) {
 					ok = true
 				}
 				return true
 			})
 			return true
 		})
-		R.Check(ok, rule, fi.Key, P.Pos(fi.Decl), "loops over the oneof's fields and deletes every other number", "clearOtherOneofFields no longer deletes every other member of the oneof inside its loop")
+		R.Check(ok, rule, fi.Key, P.Pos(fi.Decl), "loops over the oneof's fields and deletes every other number", "clearOtherOneofFields does not delete, inside its loop over the oneof's members, every member whose field number differs from the number of the field being set (the comparison must be between two FieldDescriptor.Number() values — an index within the oneof and an index within the message are different things): another member can stay populated")
 	}
 }
 
